@@ -3469,6 +3469,112 @@ void ResetSymbolDefines(void) {
     IterTree(&(FirstLocSymbol->Tree), ResetSymbolDefines_ResetNode, NULL);
 }
 
+#ifdef ASL_VERIF
+typedef struct {
+    unsigned long long Hash;
+    unsigned long      Count;
+    FILE*              pDump;
+} tVerifDigest;
+
+static void VerifDigestStr(tVerifDigest* pDigest, char const* pStr, size_t Len) {
+    size_t z;
+
+    for (z = 0; z < Len; z++) {
+        pDigest->Hash ^= (unsigned char)pStr[z];
+        pDigest->Hash *= 1099511628211ULL;
+    }
+}
+
+static void VerifDigestNode(PTree Node, void* pData) {
+    PSymbolEntry  pEntry  = (PSymbolEntry)Node;
+    tVerifDigest* pDigest = (tVerifDigest*)pData;
+    char          Buf[80];
+    size_t        z;
+
+    /* wall-clock symbols are not part of the assembly state */
+
+    if ((Node->Attribute == -1) && pEntry->Changeable
+        && (!strcmp(Node->Name, "TIME") || !strcmp(Node->Name, "DATE"))) {
+        return;
+    }
+    VerifDigestStr(pDigest, Node->Name, strlen(Node->Name) + 1);
+    switch (pEntry->SymWert.Typ) {
+    case TempInt:
+        as_snprintf(Buf, sizeof(Buf), "I %llx", (unsigned long long)pEntry->SymWert.Contents.Int);
+        break;
+    case TempFloat: {
+        unsigned long long Bits = 0;
+
+        memcpy(&Bits, &pEntry->SymWert.Contents.Float,
+               sizeof(Bits) < sizeof(Double) ? sizeof(Bits) : sizeof(Double));
+        as_snprintf(Buf, sizeof(Buf), "F %llx", Bits);
+        break;
+    }
+    case TempString:
+        as_snprintf(Buf, sizeof(Buf), "S %u", (unsigned)pEntry->SymWert.Contents.str.len);
+        VerifDigestStr(pDigest, pEntry->SymWert.Contents.str.p_str,
+                       pEntry->SymWert.Contents.str.len);
+        break;
+    case TempReg:
+        as_snprintf(Buf, sizeof(Buf), "R %u", (unsigned)pEntry->SymWert.Contents.RegDescr.Reg);
+        break;
+    default:
+        as_snprintf(Buf, sizeof(Buf), "T %d", (int)pEntry->SymWert.Typ);
+        break;
+    }
+    VerifDigestStr(pDigest, Buf, strlen(Buf) + 1);
+    as_snprintf(Buf, sizeof(Buf), "%ld", (long)Node->Attribute);
+    VerifDigestStr(pDigest, Buf, strlen(Buf) + 1);
+    pDigest->Count++;
+    if (pDigest->pDump) {
+        fprintf(pDigest->pDump, "S name=%s sect=%ld sectname=%s mask=%x chg=%d used=%d ",
+                Node->Name, (long)Node->Attribute, GetSectionName(Node->Attribute),
+                (unsigned)pEntry->SymWert.AddrSpaceMask, (int)pEntry->Changeable,
+                (int)pEntry->Used);
+        switch (pEntry->SymWert.Typ) {
+        case TempInt:
+            fprintf(pDigest->pDump, "I %llx\n",
+                    (unsigned long long)pEntry->SymWert.Contents.Int);
+            break;
+        case TempFloat: {
+            unsigned long long Bits = 0;
+
+            memcpy(&Bits, &pEntry->SymWert.Contents.Float,
+                   sizeof(Bits) < sizeof(Double) ? sizeof(Bits) : sizeof(Double));
+            fprintf(pDigest->pDump, "F %llx\n", Bits);
+            break;
+        }
+        case TempString:
+            fprintf(pDigest->pDump, "S ");
+            for (z = 0; z < pEntry->SymWert.Contents.str.len; z++) {
+                fprintf(pDigest->pDump, "%02x",
+                        (unsigned char)pEntry->SymWert.Contents.str.p_str[z]);
+            }
+            fputc('\n', pDigest->pDump);
+            break;
+        default:
+            fprintf(pDigest->pDump, "%s\n", Buf);
+        }
+    }
+}
+
+/* digest over (name, value, section) of all symbols in in-order sequence,
+   independent of the tree's shape; optionally dump one line per symbol */
+
+unsigned long long VerifSymbolDigest(FILE* pDump, unsigned long* pCount) {
+    tVerifDigest Digest;
+
+    Digest.Hash  = 1469598103934665603ULL;
+    Digest.Count = 0;
+    Digest.pDump = pDump;
+    IterTree((PTree)FirstSymbol, VerifDigestNode, &Digest);
+    if (pCount) {
+        *pCount = Digest.Count;
+    }
+    return Digest.Hash;
+}
+#endif /* ASL_VERIF */
+
 void SetFlag(Boolean* Flag, char const* Name, Boolean Wert) {
     tStrComp TmpComp;
 
